@@ -90,12 +90,17 @@ def acc(ctx, report, facts, config):
     rule = "C16.ACC"
     prog = ctx.program(facts)
     n = 0
-    for head, hn in ((A.PAR, "Par"), (A.SEQ, "Seq")):
+    nodes = [(A.PAR, "Par", ("head", "tail")), (A.SEQ, "Seq", ("head", "tail"))]
+    # any other node type of the crate (it implements RunWithPool and keeps children) owes the same accumulation
+    for head, fls in sorted(F.found_carriers(facts).items()):
+        if any(im.get("trait") == A.T_RUNWITHPOOL and im.get("self_head") == head for im in facts.impls):
+            nodes.append((head, head.rsplit("::", 1)[-1], tuple(fls)))
+    for head, hn, children in nodes:
         for name in ("reads", "writes"):
             b = F.timpl(facts, A.T_RUNWITHPOOL, head, name)
             report.touched(b, config)
             bt = prog.bt(b)
-            for child in ("head", "tail"):
+            for child in children:
                 cov = coverage(prog, b, Src(SELF, [child]), {name})
                 report.ob(rule, "%s::%s/%s" % (hn, name, child), cov.status == "once", cov.detail, site=b.loc(), config=config)
                 n += 1
@@ -109,10 +114,10 @@ def acc(ctx, report, facts, config):
             oka = bool(Q.returns(ends))
             for e in Q.returns(ends):
                 accs = [x[3][1] for x in Q.calls_in(e.path.events, lambda c: c.name == name and c.trait == A.T_RUNWITHPOOL, deep=True) if len(x[3]) == 2]
-                if not (len(accs) == 2 and all(Q.strip(ev, a) == ("param", 2) for a in accs)):
+                if not (len(accs) == len(children) and all(Q.strip(ev, a) == ("param", 2) for a in accs)):
                     oka = False
             report.ob(rule, "%s::%s/accumulator" % (hn, name), oka,
-                      "both children append to the caller's vector", site=b.loc(), config=config)
+                      "every child appends to the caller's vector", site=b.loc(), config=config)
     # leaves
     for name in ("reads", "writes"):
         b = F.blanket(facts, A.T_RUNWITHPOOL, name)
@@ -142,13 +147,90 @@ def acc(ctx, report, facts, config):
     report.floor(rule, "node accumulation obligations", n, 8, config=config)
 
 
+def _top_args(ty):
+    """Top-level generic arguments of a type string."""
+    if "<" not in ty:
+        return []
+    inner = ty[ty.index("<") + 1:ty.rindex(">")]
+    out, depth, cur = [], 0, ""
+    for ch in inner:
+        if ch in "<([":
+            depth += 1
+        elif ch in ">)]":
+            depth -= 1
+        if ch == "," and depth == 0:
+            out.append(cur.strip())
+            cur = ""
+        else:
+            cur += ch
+    if cur.strip():
+        out.append(cur.strip())
+    return [a for a in out if not a.startswith("'")]
+
+
+def _pair_of(ev, ret):
+    """The two children of the parallel pair a returned Par tree puts side by side: the (head, tail) of the outermost Par record
+    whose tail is not Nil.  None if the value holds no such pair (a one-child node)."""
+    t = ret
+    for _ in range(6):
+        o = Q.record(ev, t, A.PAR + "::Par")
+        if o is None:
+            return None
+        tl = Q.strip(ev, o.get("tail"))
+        if isinstance(tl, tuple) and tl and tl[0] == "agg" and tl[2] == A.NIL + "::Nil":
+            t = o.get("head")
+            continue
+        return Q.strip(ev, o.get("head")), tl
+    return None
+
+
+def par_builders(facts):
+    """Functions of the crate (other than Par::new / Par::with) that build a Par node with two children."""
+    out = {}
+    for b in facts.bodies.values():
+        for blk in b.blocks:
+            if blk["cleanup"]:
+                continue
+            for st in blk["stmts"]:
+                if st["k"] == "assign" and st["rv"]["k"] == "agg" and st["rv"].get("adt") == A.PAR:
+                    args = _top_args(st["place"].get("ty", ""))
+                    if len(args) == 2 and args[1] not in (A.NIL, "Nil"):
+                        r = facts.bodies.get(b.root_key, b) if b.is_closure and b.root_key else b
+                        out[r.key] = r
+    return out
+
+
 def check(ctx, report, facts, config):
     rule = "C16.CHECK"
     b = facts.one(name="with", self_head=A.PAR, container="inherent")
+    _table(ctx, report, facts, config, rule, b, "Par::with", True)
+    others = [x for x in par_builders(facts).values() if x.key != b.key]
+    for x in sorted(others, key=lambda x: x.key):
+        # any other way to put two children side by side owes the same debug check between exactly those two children
+        _table(ctx, report, facts, config, rule, x, x.qname, False)
+    report.ob(rule, "Par/builders", True, "two-child Par nodes are built in Par::with and %d other function(s), each held to the conflict table" % len(others), config=config)
+    _wiring(ctx, report, facts, config, rule)
+
+
+def _table(ctx, report, facts, config, rule, b, label, strict):
     report.touched(b, config)
-    from .. import semq as Q
     ev, ends = Q.sem(ctx, facts, b, opaque=[A.F_CHECK_INTERSECTION])
     expected = set([frozenset(["OLD-W", "NEW-R"]), frozenset(["OLD-W", "NEW-W"]), frozenset(["OLD-R", "NEW-W"])])
+    if strict:
+        old_t, new_t = ("field", ("param", 1), "head", A.PAR), ("param", 2)
+    else:
+        pairs = set()
+        for e in Q.returns(ends):
+            pr = _pair_of(ev, e.ret)
+            if pr is not None:
+                pairs.add(pr)
+        if not pairs:
+            report.ob(rule, "%s/pair" % label, True, "no way through returns a two-child Par node", site=b.loc(), config=config)
+            return
+        if len(pairs) != 1:
+            report.ob(rule, "%s/pair" % label, False, "different ways through put different children side by side: not decided", site=b.loc(), config=config)
+            return
+        old_t, new_t = list(pairs)[0]
     seen_pairs = set()
     n_checks = set()
     n_ret = n_div = 0
@@ -157,9 +239,9 @@ def check(ctx, report, facts, config):
         for x in e.path.events:
             if x[0] == "call" and x[2].trait == A.T_RUNWITHPOOL and x[2].name in ("reads", "writes") and len(x[3]) == 2:
                 who = Q.strip(ev, x[3][0])
-                if who == ("field", ("param", 1), "head", A.PAR):
+                if who == old_t:
                     side = "OLD"
-                elif who == ("param", 2):
+                elif who == new_t:
                     side = "NEW"
                 else:
                     side = "?"
@@ -180,25 +262,30 @@ def check(ctx, report, facts, config):
         if e.kind == "return":
             n_ret += 1
             if anyhit:
-                report.ob(rule, "Par::with/accepts-conflict", False, "a path on which %s intersect returns normally" % sorted(sorted(x) for x, v in conds if v == 1), site=b.loc(), config=config)
+                report.ob(rule, "%s/accepts-conflict" % label, False, "a path on which %s intersect returns normally" % sorted(sorted(x) for x, v in conds if v == 1), site=b.loc(), config=config)
             elif set(x for x, _ in conds) != expected:
-                report.ob(rule, "Par::with/accept-path", False, "the accepting path tests %s (expected W/R, W/W, R/W)" % sorted(sorted(x) for x, _ in conds), site=b.loc(), config=config)
+                report.ob(rule, "%s/accept-path" % label, False, "the accepting path tests %s (expected W/R, W/W, R/W)" % sorted(sorted(x) for x, _ in conds), site=b.loc(), config=config)
             else:
-                report.ob(rule, "Par::with/accept-path", True, "accepts only after all three intersections are empty", site=b.loc(), config=config)
+                report.ob(rule, "%s/accept-path" % label, True, "accepts only after all three intersections are empty", site=b.loc(), config=config)
+                if not strict:
+                    continue
                 ret = e.ret
                 o = Q.record(ev, ret, A.PAR + "::Par")
                 i = Q.record(ev, o.get("head"), A.PAR + "::Par") if o else None
                 tl = Q.strip(ev, o.get("tail")) if o else None
                 ok = bool(i is not None and Q.strip(ev, i.get("head")) == ("field", ("param", 1), "head", A.PAR) and Q.strip(ev, i.get("tail")) == ("param", 2)
                           and isinstance(tl, tuple) and tl[0] == "agg" and tl[2] == A.NIL + "::Nil")
-                report.ob(rule, "Par::with/wiring", ok, "returns Par { head: Par { head: self.head, tail: sys }, tail: Nil }" if ok else "unexpected result %s" % (ret[:3],), site=b.loc(), config=config)
+                report.ob(rule, "%s/wiring" % label, ok, "returns Par { head: Par { head: self.head, tail: sys }, tail: Nil }" if ok else "unexpected result %s" % (ret[:3],), site=b.loc(), config=config)
         elif e.kind == "diverge":
             n_div += 1
             if not anyhit:
-                report.ob(rule, "Par::with/spurious-panic", False, "a path without any intersection panics", site=b.loc(), config=config)
-    report.ob(rule, "Par::with/matrix", seen_pairs == expected,
+                report.ob(rule, "%s/spurious-panic" % label, False, "a path without any intersection panics", site=b.loc(), config=config)
+    report.ob(rule, "%s/matrix" % label, seen_pairs == expected,
               "intersections tested: %s" % sorted(sorted(x) for x in seen_pairs), site=b.loc(), config=config)
-    report.ob(rule, "Par::with/outcomes", n_ret >= 1 and n_div >= max(1, len(n_checks)), "%d accepting path(s), %d rejecting path(s) (expected at least 1 and one per intersection test, %d)" % (n_ret, n_div, len(n_checks)), site=b.loc(), config=config)
+    report.ob(rule, "%s/outcomes" % label, n_ret >= 1 and n_div >= max(1, len(n_checks)), "%d accepting path(s), %d rejecting path(s) (expected at least 1 and one per intersection test, %d)" % (n_ret, n_div, len(n_checks)), site=b.loc(), config=config)
+
+
+def _wiring(ctx, report, facts, config, rule):
     # Seq::with / new wiring
     def nested(ev, r, head, hn, inner_head, inner_tail):
         o = Q.record(ev, r, head + "::" + hn)
@@ -266,6 +353,8 @@ def run(ctx, report):
         facts = ctx.facts(config)
         only = lambda ident: any(x in ident for x in ("Par", "Seq", "RunWithPool"))
         report.guard("C16.FANOUT", F.check_family, ctx, report, "C16.FANOUT", facts, config, (F.RUN, F.SETUP), only)
+        report.guard("C16.UNLISTED", F.unlisted, ctx, report, "C16.UNLISTED", facts, config, (F.RUN, F.SETUP),
+                     lambda r: r.trait == A.T_RUNWITHPOOL or r.self_head in (A.PAR, A.SEQ, A.PARSEQ))
         report.guard("C16.SEQ", seq_order, ctx, report, facts, config)
         report.guard("C16.PAR", par_join, ctx, report, facts, config)
         report.guard("C16.ACC", acc, ctx, report, facts, config)
